@@ -24,10 +24,13 @@ type Space struct {
 
 // Check is one property's machinery.
 type Check struct {
-	ID     string
-	Level  string // evidence level
-	Rule   string // how cases are enumerated, what non-trivial means
-	Assume []string
+	// LateNeighbour: do not run BetweenCases at process start, only between cases (for checks whose
+	// oracle pins the first observation made in the process as the pristine one)
+	LateNeighbour bool
+	ID            string
+	Level         string // evidence level
+	Rule          string // how cases are enumerated, what non-trivial means
+	Assume        []string
 	// Spaces builds the spaces for a tier ("quick" | "thorough").
 	Spaces func(tier string) []Space
 	// Bounds describes the completed bound per tier (free text for evidence).
@@ -61,11 +64,11 @@ type Violation struct {
 
 // Stats accumulated by a worker.
 type Stats struct {
-	Counters map[string]int64  `json:"counters"`
-	Outcomes map[string]int64  `json:"outcomes"`
-	Samples  []string          `json:"samples"`
+	Counters map[string]int64      `json:"counters"`
+	Outcomes map[string]int64      `json:"outcomes"`
+	Samples  []string              `json:"samples"`
 	Viol     map[string]*Violation `json:"viol"`
-	Notes    map[string]string `json:"notes"`
+	Notes    map[string]string     `json:"notes"`
 }
 
 func NewStats() *Stats {
